@@ -758,6 +758,7 @@ impl<%(lt)sA, B, U, N: ArrayLength, F: Foreign2<%(fa)s, %(fb)s, U>> ForeignIter<
     body = ex.apply_rules(body, [
         ('R-misc', r'\bunsafe \{', '{'),
         ('R-len', r'mem::needs_drop::<T>\(\)', 'nd_t'),
+        ('R-len', r'mem::needs_drop::<B>\(\)', 'nd_lhs'),     # the borrowed operand's element type: irrelevant to what must be guarded
         ('R-mutself', r'let mut right = ArrayConsumer::new\(self\);', 'let right = ArrayConsumer::new(this);'),
         ('R-guard', r'let \(right_array_iter, right_position\) = right\.iter_position\(\); ', ''),
         ('R-slots', r'let right = ManuallyDrop::new\(self\);', 'let right = this.slots;'),
@@ -792,7 +793,7 @@ impl<%(lt)sA, B, U, N: ArrayLength, F: Foreign2<%(fa)s, %(fb)s, U>> ForeignIter<
     body = 'let ghost la0 = Seq::new(N::n() as nat, |k: int| lhs.view()[k].unwrap()); let ghost ra0 = this.elems(); ' + body
     ex.check_supported('inverted_zip2', body)
     g.emit_fn(Fn('inverted_zip2', 'src/lib.rs', f['line'], f['sig'],
-                 "pub fn inverted_zip2<'a, B, T, U, N: ArrayLength, F: Foreign2<&'a B, T, U>>(this: GenericArray<T, N>, lhs: &'a Slots<B, N>, f: F, nd_t: bool) -> (ret: (PanicOr<GenericArray<U, N>>, F))", body,
+                 "pub fn inverted_zip2<'a, B, T, U, N: ArrayLength, F: Foreign2<&'a B, T, U>>(this: GenericArray<T, N>, lhs: &'a Slots<B, N>, f: F, nd_t: bool, nd_lhs: bool) -> (ret: (PanicOr<GenericArray<U, N>>, F))", body,
                  ['this.slots.ok()', 'this.slots.all_live()', 'lhs.ok()', 'lhs.all_live()', 'f.log().len() == 0'],
                  ZIP_ENS + [('pairs-ascending', ['C08'], 'forall|k: int| 0 <= k < N::n() ==> *(#[trigger] ret.1.log()[k]).0 == lhs.view()[k].unwrap() && ret.1.log()[k].1 == this.elems()[k]')],
                  stats, n, ['C03', 'C04', 'C08']))
